@@ -160,6 +160,32 @@ def stagnant_classes(spec, res_a, res_b, diffs):
     return "stagnant_tree" if "stagnant_tree" in kinds else "stagnant_loop"
 
 
+def refine_where(where, variant_spec, diffs, ambient=293.15):
+    """Separates three things that all show up as differing temperatures of stagnant branches:
+    start_value_leak   - a reported value IS one of the (randomly perturbed) tfluid_k start values of the variant:
+                         a start value reached a result table (always a VIOLATION);
+    stagnant_threshold - the branch carries numerical-noise flow around the 1e-10 no-flow threshold: in one run it
+                         counts as stagnant (outlet relaxes to the ambient temperature), in the other as flowing
+                         (outlet follows its inlet) - one of the two values is the ambient temperature;
+    otherwise the structural class computed by stagnant_classes."""
+    starts = [float(kw["tfluid_k"]) for fn, kw in variant_spec["ops"] if fn == "create_junction"]
+    vals = []
+    for tbl, msg in diffs:
+        try:
+            a, b = msg.split(": ", 1)[1].split(" vs ")
+            vals.append((tbl, msg.split("[")[0], float(a), float(b)))
+        except (ValueError, IndexError):
+            return where
+    temp_cols = ("t_k", "t_from_k", "t_to_k", "t_outlet_k")
+    if any(c in temp_cols and any(abs(b - s0) <= 1e-9 * abs(s0) and abs(s0 - ambient) > 1e-6 for s0 in starts)
+           for _, c, a, b in vals):
+        return "start_value_leak"
+    if where in ("stagnant_tree", "stagnant_loop") and all(
+            c in temp_cols and (abs(a - ambient) <= 1e-6 or abs(b - ambient) <= 1e-6) for _, c, a, b in vals):
+        return "stagnant_threshold"
+    return where
+
+
 def run_variant(spec, **kw):
     net = gen.build(spec)
     st, msg = drive.run(net, **kw)
@@ -167,22 +193,25 @@ def run_variant(spec, **kw):
 
 
 def corpus_witness(ctx):
-    """minimised past failures run first (DESIGN 2.5): the stagnant-loop temperature finding"""
+    """minimised past failures run first (DESIGN 2.5): the stagnant-region temperature findings"""
+    import glob
     import json
-    p = os.path.join(os.path.dirname(os.path.dirname(os.path.dirname(os.path.abspath(__file__)))), "corpus",
-                     "C08_stagnant_loop.json")
-    w = json.load(open(p))
-    st0, r0 = run_variant(w["spec"], **w["base_options"])
-    st1, r1 = run_variant(w["variant_spec"], **w["variant_options"])
-    ctx.case({"corpus": "C08_stagnant_loop", "status": [st0, st1]}, st0 == st1 == "ok", key="corpus:stagnant_loop")
-    if st0 == st1 == "ok":
-        diffs = compare(r0, r1, atol=1e-5, rtol=1e-9)
-        if diffs:
-            ctx.violation({"clause": "start_value_or_damping_independence", "variant": "start", "profile": "lowflow_thermal",
-                           "mode": "bidirectional", "where": stagnant_classes(w["spec"], r0, r1, diffs)},
-                          "two converged runs of the same physical network disagree: %s %s (first of %d; corpus witness)"
-                          % (diffs[0][0], diffs[0][1], len(diffs)),
-                          {"corpus": "corpus/C08_stagnant_loop.json", "diffs": diffs[:10]})
+    cdir = os.path.join(os.path.dirname(os.path.dirname(os.path.dirname(os.path.abspath(__file__)))), "corpus")
+    for p in sorted(glob.glob(os.path.join(cdir, "C08_*.json"))):
+        name = os.path.basename(p)[:-5]
+        w = json.load(open(p))
+        st0, r0 = run_variant(w["spec"], **w["base_options"])
+        st1, r1 = run_variant(w["variant_spec"], **w["variant_options"])
+        ctx.case({"corpus": name, "status": [st0, st1]}, st0 == st1 == "ok", key="corpus:" + name)
+        if st0 == st1 == "ok":
+            diffs = compare(r0, r1, atol=1e-5, rtol=1e-9)
+            if diffs:
+                where = refine_where(stagnant_classes(w["spec"], r0, r1, diffs), w["variant_spec"], diffs)
+                ctx.violation({"clause": "start_value_or_damping_independence", "variant": "start",
+                               "profile": "corpus", "mode": w["base_options"].get("mode"), "where": where},
+                              "two converged runs of the same physical network disagree: %s %s (first of %d; corpus "
+                              "witness %s)" % (diffs[0][0], diffs[0][1], len(diffs), name),
+                              {"corpus": "corpus/%s.json" % name, "diffs": diffs[:10]})
 
 
 def run(ctx):
@@ -263,7 +292,8 @@ def run(ctx):
             if diffs:
                 ctx.violation({"clause": "start_value_or_damping_independence", "variant": name.split("_")[0],
                                "profile": profile, "mode": base_kw["mode"],
-                               "where": stagnant_classes(spec, r0, r, diffs)},
+                               "where": refine_where(stagnant_classes(spec, r0, r, diffs), vs, diffs,
+                                                     base_kw.get("ambient_temperature", 293.15))},
                               "two converged runs of the same physical network disagree: %s %s (first of %d)"
                               % (diffs[0][0], diffs[0][1], len(diffs)),
                               {"spec": spec, "variant_spec": vs, "base_options": base_kw, "variant_options": kw,
